@@ -99,6 +99,8 @@ func (w *writer) writeFile(ast *File) {
 
 	if ast.Nodes != nil {
 		w.writeNodes(ast.Nodes)
+	} else {
+		w.writeNodes(&Nodes{})
 	}
 
 	writeSlice(ast.ValueTables, w.writeValueTable, w.newLine)
